@@ -519,7 +519,7 @@ func TestC03(t *testing.T) {
 		"signed-omits-field-unsigned-supplies-it", "signed-omits-field-unsigned-supplies-it", "signer-clones-issuer-and-serial-lookalike-root", "signer-clones-issuer-and-serial-genuine-root", "signer-clones-issuer-and-serial-bitflipped-genuine-cert",
 		"exact-key-unsigned-other-key-signed-after", "exact-key-unsigned-other-key-signed-before", "exact-key-unsigned-other-key-signed-after",
 		"foreign-signer-not-yet-valid", "foreign-signer-expired", "foreign-signer-not-yet-valid-header-genuine-root",
-		"id-and-version-of-the-other-document", "other-document-in-this-position",
+		"id-and-version-of-the-other-document", "other-document-in-this-position", "version-with-a-fraction", "version-with-a-fraction",
 		"control-canonical",
 	}
 	gen.Prop(t, "alterations", gen.N(6000, 250000), func(t *rapid.T) {
@@ -734,6 +734,17 @@ func TestC03(t *testing.T) {
 				ww.QeID.Levels = nil
 			}
 			resp.Body = gen.SignedBody(k.member, k.render(&ww), signer.Key)
+		case "version-with-a-fraction":
+			// correctly signed, the version a number strictly between the expected one and the next (or just below it)
+			doc := k.render(w)
+			frac := rapid.SampledFrom([]string{".5", ".999", ".25", ".0000001", ".9999999999"}).Draw(t, "fraction")
+			want := fmt.Sprintf(`"version":%d`, int(k.wantVer))
+			spelled := want + frac
+			if rapid.IntRange(0, 3).Draw(t, "justBelow") == 0 {
+				spelled = fmt.Sprintf(`"version":%d.99999`, int(k.wantVer)-1)
+			}
+			doc = bytes.Replace(doc, []byte(want), []byte(spelled), 1)
+			resp.Body = gen.SignedBody(k.member, doc, signer.Key)
 		case "id-and-version-of-the-other-document":
 			// wrong id AND wrong version together, in the one way that is right for the other document
 			ww := *w
@@ -793,4 +804,5 @@ func TestC03(t *testing.T) {
 			}
 		}
 	})
+	c03LongHistories(t)
 }
